@@ -30,6 +30,53 @@ func notClaimed() [][2]string {
 func props() []prop {
 	return []prop{
 		{
+			ID: "C03", Level: "exploration",
+			LevelText:   "Conservation ledger over recorded runs of the real system in a synctest bubble: every user message id sent through System.Tell/ActorContext.Tell is matched at the bubble's exact quiescence against {processed by the target's behaviour, sitting in a stash, published once as DeathLetterEvent}; PRNG histories vary target state (running, killing, stopped while paused, restarting, terminated, never existed) and reference provenance (ActorOf value, Clone, ParseRef, FindActor) with sends racing transitions at one virtual instant; the enumerated supervision matrices add the stopped-while-paused and restart cases systematically; a post-Stop phase checks that late sends cause no further work.",
+			LevelNote:   "Trusted: synctest quiescence as the 'never delivered' oracle; the zombie exception is applied as documented. Remote targets belong to C14, system messages are not in the ledger.",
+			Technique:   "offline conservation / exactly-once checker over recorded event logs at a quiescence oracle",
+			DesignRef:   "DESIGN.md §4 C03",
+			Assumptions: with("a message that stashed itself counts as processed at the Stash call"),
+			Units: []unit{
+				{Check: "histories", Pkg: "internal/actor", Shards: [2]int{8, 16}, Timeout: [2]time.Duration{6 * min, 40 * min}, CrashKey: "c03-crash", OnlyKinds: []string{"c03-", "harness-"}},
+				{Check: "supmatrix", Pkg: "internal/actor", Shards: [2]int{8, 16}, Timeout: [2]time.Duration{5 * min, 30 * min}, OnlyKinds: []string{"c03-"}},
+			},
+		},
+		{
+			ID: "C09", Level: "exploration",
+			LevelText:   "Enumerated failure cells (queued bursts with the failure at every position, every decision and strategy, escalation chains to the top, failing restart hooks) plus PRNG histories of repeated and concurrent sibling failures are executed on the real system in a synctest bubble. At the bubble's exact quiescence the monitors require: no registered non-zombie actor paused or half-stopped, probes sent afterwards processed by survivors and dead-lettered for the dead, mail queued behind the failing message delivered in order (immediate) or drained first (graceful), zombies run no user code, publish no termination, and are released by Kill; a cell that cannot reach quiescence or whose Stop never returns is a hang.",
+			LevelNote:   "Trusted: synctest quiescence (Wait returns only when every goroutine of the bubble is durably blocked), the reference model of expected fates, the 60 s real-time watchdog per cell (cells normally take milliseconds).",
+			Technique:   "enumerated fault matrix + PRNG fault sequences on the real system in virtual time; probe-after-quiescence and paused/zombie invariants on hooked state",
+			DesignRef:   "DESIGN.md §4 C09",
+			Assumptions: with("liveness is restated as: reaches quiescence and answers a probe sent after quiescence"),
+			Units: []unit{
+				{Check: "unstuck", Pkg: "internal/actor", Shards: [2]int{8, 16}, Timeout: [2]time.Duration{5 * min, 30 * min}, CrashKey: "c09-crash", HangKind: "c09-hang", OnlyKinds: []string{"c09-", "harness-"}},
+				{Check: "supmatrix", Pkg: "internal/actor", Shards: [2]int{8, 16}, Timeout: [2]time.Duration{5 * min, 30 * min}, CrashKey: "c09-crash", HangKind: "c09-hang", OnlyKinds: []string{"c09-"}},
+			},
+		},
+		{
+			ID: "C08", Level: "exploration",
+			LevelText:   "The full supervision matrix is enumerated (shapes x failure sites x panic/Failed x strategies x decisions, Escalate cells expanded through levels 2 and 3 up to the system default) and every cell is executed on the real actor system inside a synctest bubble, whose Wait() is an exact quiescence oracle; the observed per-actor traces, events and registry are compared with an executable reference model of which actors are targets and what each directive does to them (decision-maker call count, restart/stop/resume effect, untouched siblings, failing message handled once).",
+			LevelNote:   "Trusted: the reference model in c08_supmatrix_test.go (vfModel), synctest quiescence. A user-supplied *system* strategy that escalates at the root is outside the stated quantifier and not generated.",
+			Technique:   "enumerated fault matrix on the real system in virtual time, reference-model comparison of recorded traces",
+			DesignRef:   "DESIGN.md §4 C08",
+			Assumptions: with("every recording actor re-spawns its children from OnLaunch (so a restarted actor's subtree is re-created)"),
+			Units: []unit{
+				{Check: "supmatrix", Pkg: "internal/actor", Shards: [2]int{8, 16}, Timeout: [2]time.Duration{5 * min, 30 * min}, CrashKey: "c08-crash", OnlyKinds: []string{"c08-", "harness-"}},
+			},
+		},
+		{
+			ID: "C01", Level: "exploration",
+			LevelText:   "The real UnboundedMailbox is executed under (1) serialized random schedules at statement granularity (every statement of unbounded_mailbox.go is a yield point inserted at check time; synctest virtual time guarantees exactly one goroutine runs between two points, so each case is a deterministic, replayable interleaving; tens of thousands of distinct interleavings per quick run) and (2) free-running stress on all cores under the race detector. Monitors: in-flight handler counter (<=1), exactly-once ledger, quiescent-state invariant (idle && no system mail && (no user mail || paused)), pause rule, idle-step budget (spin). The M-overlap monitor additionally runs in every actor-level check.",
+			LevelNote:   "Trusted: vinstr (syntax-driven insertion of yield calls), synctest's scheduling guarantee, sequential consistency at statement granularity in the serialized tier (weaker memory effects only in the stress tier). User-supplied Mailbox implementations are out of scope.",
+			Technique:   "controlled-schedule exploration of the real code with online invariant monitors + race detector stress",
+			DesignRef:   "DESIGN.md §4 C01",
+			Assumptions: with("interleavings are explored at statement granularity under sequential consistency in the serialized tier"),
+			Units: []unit{
+				{Check: "mailboxsched", Pkg: "internal/mailbox", Instr: []string{"internal/mailbox/unbounded_mailbox.go"}, Shards: [2]int{8, 16}, Timeout: [2]time.Duration{5 * min, 40 * min}, CrashKey: "crash", HangKind: "hang", SkipKinds: []string{"prio-", "order-"}},
+				{Check: "mailboxstress", Pkg: "internal/mailbox", Race: true, Instr: []string{"internal/mailbox/unbounded_mailbox.go"}, Shards: [2]int{4, 16}, Timeout: [2]time.Duration{8 * min, 40 * min}, CrashKey: "crash", HangKind: "hang", SkipKinds: []string{"prio-", "order-"}},
+			},
+		},
+		{
 			ID: "C02", Level: "exploration",
 			LevelText:   "Reference-FIFO lock-step comparison of the real RingQueue over an exhaustive grid of (initial size, head offset, burst) covering every growth boundary at every wrap position plus long PRNG walks; porcupine linearizability check of free-running MPSC histories under the race detector; per-sender sequence monitor, system-before-user rule, kill-ordering gates and a sequential stash reference model on the real actor runtime in virtual time.",
 			LevelNote:   "Trusted: slice FIFO reference, porcupine v1.3.0, the 25-line stash model. Two concurrent Pops are never generated (the mailbox has a single consumer by construction, C01).",
@@ -39,6 +86,7 @@ func props() []prop {
 			Units: []unit{
 				{Check: "ringref", Pkg: "internal/queues", Timeout: [2]time.Duration{3 * min, 20 * min}},
 				{Check: "ringlin", Pkg: "internal/queues", Race: true, Shards: [2]int{4, 16}, Timeout: [2]time.Duration{5 * min, 30 * min}, CrashKey: "crash"},
+				{Check: "mailboxsched", Pkg: "internal/mailbox", Instr: []string{"internal/mailbox/unbounded_mailbox.go"}, Shards: [2]int{8, 16}, Timeout: [2]time.Duration{5 * min, 40 * min}, OnlyKinds: []string{"prio-", "order-"}},
 				{Check: "ringfifo", Pkg: "internal/queues", Race: true, Shards: [2]int{4, 8}, Timeout: [2]time.Duration{5 * min, 30 * min}, CrashKey: "crash"},
 			},
 		},
